@@ -747,10 +747,11 @@ def coq_terms():
         c = p.get("criterion") or {}
         oq = lambda k: optlit(c.get(k), q)
         oz = lambda k: optlit(c.get(k), zlit)
-        return ("{| n_workers := %s; async := %s; wait_completion := %s; max_failures := %s;\n"
+        return ("{| n_workers := %s; async := %s; wait_completion := %s; max_failures := %s; sjwd := %s;\n"
                 "   c_wallclock := %s; c_evals := %s; c_started := %s; c_completed := %s; c_finished := %s;\n"
                 "   c_cost := %s; c_min_metric := %s; c_max_metric := %s |}" % (
                     natlit(p["n_workers"]), blit(p["async"]), blit(p["wait"]), natlit(p["max_failures"]),
+                    blit(p.get("sjwd", True)),
                     oq("max_wallclock_time"), oz("max_num_evaluations"), oz("max_num_trials_started"),
                     oz("max_num_trials_completed"), oz("max_num_trials_finished"), oq("max_cost"),
                     oq("min_metric_value"), oq("max_metric_value")))
